@@ -710,7 +710,9 @@ theorem saveString_ov (d : Doc) (s : List Byte) :
   simp only [Doc.saveString]
   split
   · simp
-  · generalize d.pl.alloc (s.length + d.strOverhead) = q
+  · split
+    · simp
+    generalize d.pl.alloc (s.length + d.strOverhead) = q
     obtain ⟨ok, pl⟩ := q
     cases ok <;> simp
 
@@ -1305,7 +1307,9 @@ theorem saveString_pools (d : Doc) (s : List Byte) : (d.saveString s).2.pl.pools
   simp only [Doc.saveString]
   split
   · rfl
-  · generalize hq : d.pl.alloc (s.length + d.strOverhead) = q
+  · split
+    · rfl
+    generalize hq : d.pl.alloc (s.length + d.strOverhead) = q
     obtain ⟨ok, pl⟩ := q
     have : pl.pools = d.pl.pools := by
       have := PL.alloc_pools d.pl (s.length + d.strOverhead); rw [hq] at this; exact this
